@@ -1,0 +1,261 @@
+//go:build verif
+
+package vhook
+
+import (
+	"encoding/json"
+	"errors"
+	"io"
+	"os"
+	"sort"
+	"strconv"
+	"strings"
+	"sync"
+	"sync/atomic"
+	"syscall"
+	"time"
+)
+
+// Enabled reports whether the verification hooks are compiled in.
+const Enabled = true
+
+// Controller receives every hook call while installed.
+type Controller interface {
+	Yield(point string, idx int)
+	Step(point string, arg string) error
+	Event(point string, arg string)
+	Writer(point string, w io.Writer) io.Writer
+	AwaitMutex(name string, m *sync.Mutex)
+	PoolGet(kind string) interface{}
+	PoolPut(kind string, v interface{}) bool
+	Knob(name string, def int) int
+}
+
+type holder struct{ c Controller }
+
+var current atomic.Pointer[holder]
+
+// Install sets (or, with nil, removes) the controller.
+func Install(c Controller) {
+	if c == nil {
+		current.Store(nil)
+		return
+	}
+	current.Store(&holder{c: c})
+}
+
+func ctl() Controller {
+	if h := current.Load(); h != nil {
+		return h.c
+	}
+	return nil
+}
+
+func Yield(point string, idx int) {
+	if c := ctl(); c != nil {
+		c.Yield(point, idx)
+		return
+	}
+	if p := envPlan(); p != nil {
+		p.hit(point)
+	}
+}
+
+func Step(point string, arg string) error {
+	if c := ctl(); c != nil {
+		return c.Step(point, arg)
+	}
+	if p := envPlan(); p != nil {
+		return p.hit(point)
+	}
+	return nil
+}
+
+func Event(point string, arg string) {
+	if c := ctl(); c != nil {
+		c.Event(point, arg)
+		return
+	}
+	if p := envPlan(); p != nil {
+		p.hit(point)
+	}
+}
+
+func Writer(point string, w io.Writer) io.Writer {
+	if c := ctl(); c != nil {
+		return c.Writer(point, w)
+	}
+	if p := envPlan(); p != nil {
+		return &planWriter{p: p, point: point, w: w}
+	}
+	return w
+}
+
+func AwaitMutex(name string, m *sync.Mutex) {
+	if c := ctl(); c != nil {
+		c.AwaitMutex(name, m)
+	}
+}
+
+func PoolGet(kind string) interface{} {
+	if c := ctl(); c != nil {
+		return c.PoolGet(kind)
+	}
+	return nil
+}
+
+func PoolPut(kind string, v interface{}) bool {
+	if c := ctl(); c != nil {
+		return c.PoolPut(kind, v)
+	}
+	return false
+}
+
+func Knob(name string, def int) int {
+	if c := ctl(); c != nil {
+		return c.Knob(name, def)
+	}
+	if p := envPlan(); p != nil {
+		if v, ok := p.Knobs[name]; ok {
+			return v
+		}
+	}
+	return def
+}
+
+// ---- environment plan (real-process tier) ----
+//
+// VERIF_PLAN={"crash":"point#n","signal":"point#n:INT","fault":"point#n:EIO",
+//             "log":"/path","knobs":{"name":1}}
+// "point#n" is the n-th hit (1-based) of the named point in this process.
+
+type plan struct {
+	Crash  string         `json:"crash"`
+	Signal string         `json:"signal"`
+	Fault  string         `json:"fault"`
+	Log    string         `json:"log"`
+	Knobs  map[string]int `json:"knobs"`
+
+	mu    sync.Mutex
+	count map[string]int
+	logf  *os.File
+}
+
+var (
+	planOnce sync.Once
+	thePlan  *plan
+)
+
+func envPlan() *plan {
+	planOnce.Do(func() {
+		s := os.Getenv("VERIF_PLAN")
+		if s == "" {
+			return
+		}
+		p := &plan{count: map[string]int{}}
+		if err := json.Unmarshal([]byte(s), p); err != nil {
+			_, _ = os.Stderr.WriteString("VERIF_PLAN: " + err.Error() + "\n")
+			os.Exit(97)
+		}
+		if p.Log != "" {
+			p.logf, _ = os.OpenFile(p.Log, os.O_CREATE|os.O_WRONLY|os.O_APPEND, 0600)
+		}
+		thePlan = p
+	})
+	return thePlan
+}
+
+func splitSpec(spec string) (point string, n int, arg string) {
+	if i := strings.LastIndex(spec, ":"); 0 <= i {
+		arg = spec[i+1:]
+		spec = spec[:i]
+	}
+	n = 1
+	if i := strings.LastIndex(spec, "#"); 0 <= i {
+		n, _ = strconv.Atoi(spec[i+1:])
+		spec = spec[:i]
+	}
+	return spec, n, arg
+}
+
+var errnoByName = map[string]syscall.Errno{
+	"EIO": syscall.EIO, "EACCES": syscall.EACCES, "ENOSPC": syscall.ENOSPC,
+	"ENOENT": syscall.ENOENT, "EMFILE": syscall.EMFILE, "EROFS": syscall.EROFS,
+	"EISDIR": syscall.EISDIR,
+}
+
+// ErrnoByName maps a symbolic errno name to its value (EIO if unknown).
+func ErrnoByName(name string) syscall.Errno {
+	if e, ok := errnoByName[name]; ok {
+		return e
+	}
+	return syscall.EIO
+}
+
+func (p *plan) hit(point string) error {
+	p.mu.Lock()
+	p.count[point]++
+	n := p.count[point]
+	if p.logf != nil {
+		_, _ = p.logf.WriteString(point + "#" + strconv.Itoa(n) + "\n")
+	}
+	p.mu.Unlock()
+
+	if p.Crash != "" {
+		if pt, k, _ := splitSpec(p.Crash); pt == point && k == n {
+			_ = syscall.Kill(os.Getpid(), syscall.SIGKILL)
+			time.Sleep(time.Hour)
+		}
+	}
+	if p.Signal != "" {
+		if pt, k, name := splitSpec(p.Signal); pt == point && k == n {
+			sig := syscall.SIGINT
+			switch name {
+			case "TERM":
+				sig = syscall.SIGTERM
+			case "QUIT":
+				sig = syscall.SIGQUIT
+			}
+			_ = syscall.Kill(os.Getpid(), sig)
+			time.Sleep(50 * time.Millisecond)
+		}
+	}
+	if p.Fault != "" {
+		if pt, k, name := splitSpec(p.Fault); pt == point && k == n {
+			return &os.PathError{Op: "verif", Path: point, Err: ErrnoByName(name)}
+		}
+	}
+	return nil
+}
+
+type planWriter struct {
+	p     *plan
+	point string
+	w     io.Writer
+}
+
+func (w *planWriter) Write(b []byte) (int, error) {
+	if err := w.p.hit(w.point); err != nil {
+		return 0, err
+	}
+	if len(b) > 1 {
+		h := len(b) / 2
+		n, err := w.w.Write(b[:h])
+		if err != nil {
+			return n, err
+		}
+		if err := w.p.hit(w.point + ".mid"); err != nil {
+			return n, err
+		}
+		m, err := w.w.Write(b[h:])
+		return n + m, err
+	}
+	return w.w.Write(b)
+}
+
+var _ = errors.New
+
+func SortStrings(keys []string) []string {
+	sort.Strings(keys)
+	return keys
+}
